@@ -19,7 +19,7 @@ SYMBOLIC = HARNESSES
 SEQS = ['[""]', '["a"]', '["a\\nb"]', '["\\n"]', '["ab\\n"]', '["a", "b"]', '["", "x"]', '["data: x"]', '["a\\rb"]', '["a\\r\\nb"]', '["\\r"]', '["x\\revent: y"]']
 HARNESSES = [H(f"c17_sse_framing_concrete_k{k:02d}", crate="ohkami", strength="bounded", timeout=900, tier="quick", expect_covers=False,
                unwindset={"memchr_naive": 14, "memchr_aligned": 3, "memcmp": 4, "CharSearcher": 8},
-               functions=SYMBOLIC[0].functions, clauses=SYMBOLIC[0].clauses, bound="ONE concrete message sequence: " + SEQS[k]) for k in range(12) if k not in (3, 4)]   # k03 `\\n` and k04 `ab\\n` (trailing LF): no answer in 15 min, not registered
+               functions=SYMBOLIC[0].functions, clauses=SYMBOLIC[0].clauses, bound="ONE concrete message sequence: " + SEQS[k]) for k in range(12) if k not in (3, 4, 10)]   # k03 `\\n` and k04 `ab\\n` (trailing LF): and k10 `\\r` (messages ENDING in a line break: an empty last line): no answer in 15 min, not registered
 TRUSTED = ["the reference chunked reader / event-stream interpreter in harness/C17/send.rs (written from RFC 9112 §7.1 and WHATWG HTML §9.2.6)",
            "the extraction rule of lib/vf.py (//@extract): the block between two unique marker lines of Response::send is copied verbatim into a harness function on every run"]
 ASSUMPTIONS = ["dropped by the extraction and NOT under contract: the await points of the loop (stream.next(), write_all, flush), i.e. every producer schedule / pacing question, the response head (Transfer-Encoding: chunked is set by set_stream_raw) and the final `0 CRLF CRLF` write, which the harness appends itself",
